@@ -430,7 +430,8 @@ def run(env):
     items, generated = build_items(env)
     res = hard_pmap(impl_run, items, soft=env.budget(3, 4), hard=env.budget(9, 12), procs=min(V.NPROC, 10))
     cases, meta = [], []
-    skipped = {"timeout": 0, "harness-exc": 0, "slow": 0, "long-output": 0, "value-outside-int/list/function": 0}
+    skipped = {"timeout": 0, "harness-exc": 0, "slow": 0, "long-output": 0, "value-outside-int/list/function": 0,
+               "python-resource-limit": 0}
     for it, (st, r) in zip(items, res):
         if st == "timeout":
             skipped["timeout"] += 1
@@ -439,6 +440,10 @@ def run(env):
             skipped["harness-exc"] += 1
             continue
         code, stack, out, err, dt = r
+        if err in ("RecursionError", "MemoryError"):
+            # deep chains of lazy generators hit CPython's recursion limit: a resource limit, not a semantics
+            skipped["python-resource-limit"] += 1
+            continue
         if dt > 0.25:
             skipped["slow"] += 1
             continue
@@ -452,11 +457,15 @@ def run(env):
         cases.append((it[0], it[2], list(it[1]), code, enc, out))
         meta.append((it, err))
     t_impl = time.time()
-    codes, logs = coq_codes(env.prop, "run", cases, shard=env.budget(60, 80), timeout=env.budget(240, 400))
+    codes, logs = coq_codes(env.prop, "run", cases, shard=env.budget(60, 80), timeout=env.budget(45, 70))
+    heavy = []
     for lo, hi, log in logs:
-        # one heavy case can starve a shard: re-evaluate its cases one by one, name the culprit
-        sub, sublogs = coq_codes(env.prop, f"retry{lo}", cases[lo:hi], shard=1, timeout=60)
+        # the model is eager where the implementation is lazy: a value that grows exponentially but is never
+        # forced starves its shard.  Re-evaluate such a shard case by case under a short limit; what still does
+        # not finish is skipped and counted
+        sub, sublogs = coq_codes(env.prop, f"retry{lo}", cases[lo:hi], shard=1, timeout=15)
         codes[lo:hi] = sub
+        heavy += [cases[lo + a][0] for a, b, _ in sublogs]
     t_coq = time.time()
     dist = {}
     flags_seen = {}
@@ -489,6 +498,7 @@ def run(env):
                 constructs[u] = constructs.get(u, 0) + 1
             if used:
                 nontrivial.append(f"{src}\x00{inputs}\x00{fl}")
+    env.note("model_evaluation_too_heavy", {"count": len(heavy), "examples": heavy[:5]})
     if unevaluated > max(3, len(cases) // 100):
         env.proof_broken("too many correspondence cases could not be evaluated in Coq", f"{unevaluated} of {len(cases)}; {[l[2][-300:] for l in logs][:3]}")
     env.count(len(cases), nontrivial)
